@@ -26,8 +26,11 @@ CHECKS["C03"] = dict(
           "stiffness columns sum to zero (charge balance). The model's binary64 reading reproduces the real solver's assembled "
           "matrix, right-hand side, flags and conductor charges bit for bit on generated problems; an independent SI-unit "
           "Galerkin assembly (numpy) checks the written potentials, floating-conductor charge and reported charges. "
-          "Partial: no theorem yet for the floating-conductor/point-charge/conductor-row finishing steps (correspondence and "
-          "oracle only), rounding and PCG termination not proved."),
+          "The finishing step is proved too: the row of a conductor with prescribed charge holds exactly when the flux leaving it "
+          "(couplings to free unknowns plus the eliminated couplings to fixed nodes) equals the prescribed charge, the row of a "
+          "conductor with prescribed voltage forces that voltage, and no other row changes. "
+          "Partial: the point-charge loop and the periodic-pair step are covered by correspondence and oracle only (periodic ties "
+          "are C09's tie_system_equiv); rounding and PCG termination are not proved."),
     design_ref="DESIGN.md §5 C03",
     note=("Trusted: Coq kernel + real-number axioms; hand-written model tied to esolver.cpp by bit-level correspondence of the "
           "assembled system on every run; Triangle, file readers and Cuthill renumbering are not modelled (model starts from "
